@@ -417,6 +417,43 @@ def m_map_values(c):
     return map_order(c.st, m, [TypedPtr(m, i, m.vty) for i in range(len(m.keys))])
 
 
+@model('BTreeMap::range', 'BTreeMap::range_mut')
+def m_btree_range(c):
+    """(&K, &V) pairs whose key lies in the range, ascending; integer keys"""
+    m = as_map(c.st, c.args[0])
+    m.force(c.st)
+    r = deref(c.st, c.args[1])
+    kind = adt_name(r)
+    if kind not in ('RangeFrom', 'Range', 'RangeInclusive', 'RangeTo', 'RangeToInclusive', 'RangeFull'):
+        raise Unsupported('BTreeMap::range over ' + str(kind))
+    lo = hi = None
+    incl = kind in ('RangeInclusive', 'RangeToInclusive')
+    if kind in ('RangeFrom', 'Range', 'RangeInclusive'):
+        lo = deref(c.st, r.load(0, None, c.st))
+    if kind in ('Range', 'RangeInclusive'):
+        hi = deref(c.st, r.load(1, None, c.st))
+    if kind in ('RangeTo', 'RangeToInclusive'):
+        hi = deref(c.st, r.load(0, None, c.st))
+    # decide membership of every key first (branches), then build the iterator: no mutation before a fork
+    keep = []
+    for i, k in enumerate(m.keys):
+        if not isinstance(k, Int):
+            raise Unsupported('BTreeMap::range with key type ' + type(k).__name__)
+        cs = []
+        if lo is not None:
+            cs.append((k.v >= lo.v) if k.signed else z3.UGE(k.v, lo.v))
+        if hi is not None:
+            if incl:
+                cs.append((k.v <= hi.v) if k.signed else z3.ULE(k.v, hi.v))
+            else:
+                cs.append((k.v < hi.v) if k.signed else z3.ULT(k.v, hi.v))
+        if c.st.branch(z3.And(cs) if cs else z3.BoolVal(True), f'btree range {i}'):
+            keep.append(i)
+    sub = Map(m.kty, m.vty, [m.keys[i] for i in keep], [None] * len(keep), ordered=True)
+    items = [Struct('(&K, &V)', {0: new_cell_ptr(m.keys[i]), 1: TypedPtr(m, i, m.vty)}) for i in keep]
+    return map_order(c.st, sub, items)
+
+
 @pattern(r'^<.* as Iterator>::peek$|^std::iter::Peekable::peek$|^Peekable::peek$')
 def m_peek(c):
     it = deref(c.st, c.args[0])
